@@ -256,6 +256,10 @@ Proof.
       * rewrite IH. destruct (f k); auto. apply (sm_get_none_le k' m k); auto using lex_lt_le.
 Qed.
 
+Lemma sm_filter_cons_eq f k (v : V) m :
+  sm_filter f ((k, v) :: m) = if f k then (k, v) :: sm_filter f m else sm_filter f m.
+Proof. reflexivity. Qed.
+
 Lemma sm_filter_filter f g m : sm_filter f (sm_filter g m) = sm_filter (fun k => g k && f k) m.
 Proof.
   unfold sm_filter. induction m as [|[k v] m IH]; cbn; auto.
